@@ -31,6 +31,8 @@ func main() {
 		fmt.Fprintln(os.Stderr, "unknown property", prop)
 		os.Exit(2)
 	}
+	thorough = *tier == "thorough"
+	boostR = newR(*seed ^ 0x5eed5eed)
 	out := newOut(*outp)
 	g(newR(*seed), *n, *tier, out)
 	out.close()
